@@ -179,6 +179,19 @@ def chooseOp {κ : Type} (opName : String) : List (Op κ) → Option (Op κ) →
       | none => chooseOp opName rest (some d)
     else chooseOp opName rest op
 
+/-- `executor.GetOperation` (graphql/executor/executor.go): the operation that is *executed* for a
+    requested name — transliterated: a second match is the error "Multiple matching operations.", no
+    match is "No matching operations."; `ret` is the loop's variable. -/
+def executorGetOperation {κ : Type} (opName : String) : List (Op κ) → Option (Op κ) → Except String (Op κ)
+  | [], none => .error "No matching operations."
+  | [], some o => .ok o
+  | d :: rest, ret =>
+    if opName = "" ∨ d.name = some opName then
+      match ret with
+      | some _ => .error "Multiple matching operations."
+      | none => executorGetOperation opName rest (some d)
+    else executorGetOperation opName rest ret
+
 inductive Verdict where
   | accepted
   /-- "operation cost is too high to calculate" -/
